@@ -38,6 +38,9 @@ def owns(rule, flags):
 def make_case(rng, i):
     prof = dict(PROFILE)
     prof["allow"] = rng.random() < 0.85
+    # plain callbacks of a machine on the async engine may send events too: the event is queued at the
+    # call (the coroutine they get back is not theirs to await)
+    prof["sync_sends_on_async"] = rng.random() < 0.3
     case = F.basic_case(rng, prof, hist=(3, 10), drivers=("sync", "inloop"), p_unknown=0.02,
                         async_modes=("none", "none", "all", "half"), p_style=0.2)
     case["send_budget"] = rng.choice([3, 6, 10])
